@@ -45,6 +45,8 @@ type Options struct {
 	Galactica   uint32 // GALACTICA fork height (0 = from genesis, math.MaxUint32 = never); default 0
 	NoGalactica bool
 	LaunchTime  uint64 // genesis timestamp; 0 = DefaultLaunch
+	// StakingPeriod, if > 0, is used for the low/medium/high staking periods (blocks); default = thor's defaults.
+	StakingPeriod uint32
 }
 
 // DefaultLaunch is a fixed genesis time far enough in the past that no generated block is a "future block".
@@ -178,7 +180,7 @@ func NewNet(o Options) *Net {
 		Stakers:    stakers,
 		Params:     genesis.Params{ExecutorAddress: &devs[0].Address, MaxBlockProposers: &mbp},
 		ForkConfig: fc,
-		Config:     &thor.Config{EpochLength: o.EpochLength, HayabusaTP: &tp},
+		Config:     netConfig(o, &tp),
 	})
 	must(err)
 	tmp, err := os.MkdirTemp("", "verif-sim-")
@@ -190,6 +192,18 @@ func NewNet(o Options) *Net {
 	n.God = n.openNode(-1, kvrec.New(), true)
 	n.B0 = n.God.Repo.GenesisBlock()
 	return n
+}
+
+// netConfig: thor.SetConfig ignores zero fields and is process-global, so every net sets every field it may have
+// changed before, explicitly.
+func netConfig(o Options, tp *uint32) *thor.Config {
+	c := &thor.Config{EpochLength: o.EpochLength, HayabusaTP: tp,
+		LowStakingPeriod: 8640 * 7, MediumStakingPeriod: 8640 * 15, HighStakingPeriod: 8640 * 30, CooldownPeriod: 8640}
+	if o.StakingPeriod > 0 {
+		c.LowStakingPeriod, c.MediumStakingPeriod, c.HighStakingPeriod = o.StakingPeriod, o.StakingPeriod, o.StakingPeriod
+		c.CooldownPeriod = o.EpochLength
+	}
+	return c
 }
 
 // Close removes temporary directories.
